@@ -196,6 +196,18 @@ class Shadow(CallbackListener):
             if want != have:
                 return "connections", "wire lists %d pins, mirror %d (mirror-only %d, real-only %d)" % (
                     len(want), len(have), len(have - want), len(want - have))
+        # the pin's side of the same relation: a mirror built from the announcements knows for every pin which wire it is on
+        on = {}
+        wid = set(id(w) for w in u.wires)
+        for w in u.wires:
+            for pid in self.wpins.get(id(w), ()):
+                on[pid] = w
+        for p in list(u.ipins) + [op for i in u.insts for op in i.pins.values()]:
+            rw = p.wire
+            mw = on.get(id(p))
+            if rw is not mw and (rw is None or mw is None or id(rw) in wid):
+                return "connections", "a %s reports wire %s, the mirror has it on %s" % (
+                    type(p).__name__, "none" if rw is None else "W%x" % (id(rw) & 0xffff), "none" if mw is None else "W%x" % (id(mw) & 0xffff))
         for i in u.insts:
             r = i.reference
             if self.ref.get(id(i)) != (None if r is None else id(r)):
